@@ -84,9 +84,11 @@ func Read(r io.ReaderAt) (*Info, error) {
 		ScalerType: scalerType,
 		Toc:        make(map[string]Record, numTables),
 	}
+	// The end of a table is computed in 64 bits: offset + length may
+	// exceed 2^32 for a corrupt directory, and must not wrap around.
 	type alloc struct {
-		Start uint32
-		End   uint32
+		Start int64
+		End   int64
 	}
 	var coverage []alloc
 	for i := 0; i < numTables; i++ {
@@ -117,8 +119,8 @@ func Read(r io.ReaderAt) (*Info, error) {
 			Length: length,
 		}
 		coverage = append(coverage, alloc{
-			Start: offset,
-			End:   offset + length,
+			Start: int64(offset),
+			End:   int64(offset) + int64(length),
 		})
 	}
 	if len(h.Toc) == 0 {
@@ -149,7 +151,7 @@ func Read(r io.ReaderAt) (*Info, error) {
 			}
 		}
 	}
-	_, err = r.ReadAt(buf[:1], int64(coverage[len(coverage)-1].End)-1)
+	_, err = r.ReadAt(buf[:1], coverage[len(coverage)-1].End-1)
 	if err == io.EOF {
 		return nil, &parser.InvalidFontError{
 			SubSystem: "sfnt/header",
